@@ -417,7 +417,26 @@ pub fn run(o: &mut Out, tier: &str, seed: u64) {
         dec_case(o, "block", &b, "valid"); dec_case(o, "header", &serialize(&blk.header), "valid");
         for _ in 0..6 { let m = gen::mutate(&mut r, &b); dec_case(o, "block", &m, "mutated"); }
         let hb = serialize(&blk.header); for _ in 0..3 { let m = gen::mutate(&mut r, &hb); dec_case(o, "header", &m, "mutated"); }
+        // block identifiers commit to the received bytes: id / root / blob of the parsed bytes (model side computed from the bytes alone),
+        // then of neighbours differing in one bit (header, miner transaction or a listed hash): different accepted bytes, different id
+        if it % 2 == 0 && b.len() < 6000 {
+            let id0 = crate::c06::block_id_case(o, &b, "c01.generated");
+            for _ in 0..2 { let mut m = b.clone(); let pos = r.below(b.len() as u64) as usize; m[pos] ^= 1 << r.below(8);
+                let idm = crate::c06::block_id_case(o, &m, "c01.neighbour");
+                if !idm.starts_with("err") { o.stat("blockid.neighbour.parsed"); o.direct(idm != id0, "C01: two different accepted block byte strings have different identifiers", format!("c06_block {} - - -", trunc(&hex(&m), 600)), idm.clone(), format!("anything but {}", trunc(&id0, 200))); } }
+        }
     }
+    // blocks around the historical block 202612 (the one hard-coded identifier): the real block, and generated blocks whose `prev_id` is the
+    // real block's `prev_id` (competing blocks for that height), each of the two hard-coded identifiers, and a neighbour of each — every one
+    // must get the identifier of ITS OWN bytes
+    { let real = crate::c06::block_202612_bytes();
+      if let Ok(rb) = deserialize::<monero::Block>(&real) {
+          let specials = [rb.header.prev_id.0, unhex("426d16cff04c71f8b16340b722dc4010a2dd3831c22041431f772547ba6e331a").try_into().unwrap(), unhex("bbd604d2ba11ba27935e006ed39c9bfdd99b76bf4a50654bc1e1e61217962698").try_into().unwrap()];
+          let mut ids = std::collections::BTreeSet::new();
+          for (k, sp) in specials.iter().enumerate() { for variant in 0..3 {
+              let mut blk = gen::block(&mut r, (k + variant) % 4); let mut pid = *sp; if variant == 2 { pid[7] ^= 1; } blk.header.prev_id = monero::Hash(pid);
+              let b = serialize(&blk); let id = crate::c06::block_id_case(o, &b, "c01.around-202612"); o.stat("blockid.around-202612");
+              o.direct(ids.insert(id.clone()), "C01: competing blocks for the height of block 202612 (same prev_id, different bytes) have different identifiers", format!("c06_block {} - - -", trunc(&hex(&b), 600)), id, "an identifier not seen before".into()); } } } }
     // declared-length attacks at and around the allocation cap, at every vector position
     let cap = monero::consensus::encode::MAX_VEC_MEM_ALLOC_SIZE as u64;
     for (ty, sz) in [("vec_u8", 1u64), ("vec_varint", 8), ("vec_key", 32), ("vec_txin", std::mem::size_of::<TxIn>() as u64), ("vec_txout", std::mem::size_of::<TxOut>() as u64)] {
